@@ -17,6 +17,15 @@ features (PyF+ : shapes on which rope's scoping is known to depart from CPython,
     "lambda"      lambda expressions
     "builtin"     builtins used as plain names more often (rename of a builtin)
     "package"     one library module lives in a package (pk/__init__.py + pk/mc.py)
+    "compiter"    the first iterable of a comprehension may read the comprehension's own variable name
+    "fstring"     f-strings although a function may be called f
+    "reimport"    a name bound by an import may be imported again from another module
+    "genexp"      generator expressions as the sole argument of a call, element not parenthesised
+    "sameline"    a comprehension variable may be spelled like the name the statement assigns
+    "unvisited"   comprehensions in return values and in augmented / annotated assignments
+    "redef"       a class may define the same method twice
+    "misattached" comprehensions in the values assigned inside methods
+    "shadowattr"  a method of a subclass may assign self.a where a is a class attribute of a base class
 """
 INTS = ["x", "y", "z"]
 FUNS = ["f", "g"]
@@ -70,6 +79,13 @@ class Gen:
         self.features = set(features)
         self.lines = []
         self.exports = {}       # module name -> {name: Info}
+        self.line_targets = ()
+        self.nocomp = 0
+        self.in_method = False
+        self.globs = ()
+        # f"..." literals are generated; a function called f would make every project an instance of the
+        # string-prefix finding, so the pool avoids that spelling unless asked for
+        self.funs = ["f", "g"] if "fstring" in self.features else ["g", "h"]
 
     # ------------------------------------------------------------------ helpers
     def pick(self, xs):
@@ -84,7 +100,7 @@ class Gen:
     def noise(self, ind):
         if self.chance(0.12):
             self.emit(ind, "# " + self.pick(["%s = %s" % (self.pick(INTS), self.pick(INTS)),
-                                            "def %s(%s): pass" % (self.pick(FUNS), self.pick(INTS)),
+                                            "def %s(%s): pass" % (self.pick(self.funs), self.pick(INTS)),
                                             "import %s" % self.pick(MODS), self.pick(CLSS) + "." + self.pick(INTS)]))
         if self.chance(0.05):
             self.emit(ind, "")
@@ -168,7 +184,7 @@ class Gen:
             c = self.call(sc, depth, avoid)
             if c is not None:
                 return c
-        if r < 0.88:
+        if r < 0.88 and not self.nocomp:
             return self.comp(sc, depth, avoid)
         if r < 0.92:
             return "%s(%s, %s)" % (self.pick(["max", "min"]), self.atom(sc, avoid), self.atom(sc, avoid))
@@ -181,15 +197,22 @@ class Gen:
         return "abs(%s)" % self.atom(sc, avoid)
 
     def comp(self, sc, depth, avoid):
-        v = self.pick(INTS)
+        # main stream: the variable is not a name bound by the statement the comprehension is part of (finding
+        # same-line-import-conflation) and, in a class body, not an attribute of the class
+        pool = INTS if "sameline" in self.features else [v for v in INTS if v not in self.line_targets] or INTS
+        v = self.pick(pool)
         inner = Scope("function", sc)
         inner.names[v] = Info("int")
         # the first iterable is evaluated outside the comprehension: it must not name the variable unless that
         # name is an int outside as well
-        it = "range(%s %% 3)" % self.atom(sc, avoid) if self.chance(0.7) else "[%s, %s]" % (self.atom(sc, avoid), self.atom(sc, avoid))
+        av = tuple(avoid) if "compiter" in self.features else tuple(avoid) + (v,)
+        it = "range(%s %% 3)" % self.atom(sc, av) if self.chance(0.7) else "[%s, %s]" % (self.atom(sc, av), self.atom(sc, av))
         elt = self.expr(inner, depth + 1, avoid)
         cond = " if %s > %s" % (v, self.atom(inner, avoid)) if self.chance(0.3) else ""
-        form = self.pick(["sum([%s for %s in %s%s])", "sum(%s for %s in %s%s)", "len({%s for %s in %s%s})",
+        # a generator expression that is the sole argument of a call has no parentheses of its own: its element is
+        # parenthesised unless the feature asks for the bare form (finding genexp-first-token)
+        gen = "sum(%s for %s in %s%s)" if "genexp" in self.features else "sum((%s) for %s in %s%s)"
+        form = self.pick(["sum([%s for %s in %s%s])", gen, "len({%s for %s in %s%s})",
                           "len({%s: 0 for %s in %s%s})"])
         return form % (elt, v, it, cond)
 
@@ -198,16 +221,29 @@ class Gen:
         """one simple statement in scope sc; definite = executed unconditionally (bindings may be relied on)"""
         r = self.rng.random()
         self.noise(ind)
+        self.globs = tuple(glob)
         if r < 0.45:
             v = self.target(sc, glob)
             if v is None:
                 return
             cur = sc.names.get(v)
-            e = self.expr(sc)
-            if cur is not None and self.chance(0.25):
+            self.line_targets = (v,)
+            e = self.expr_stmt(sc, v, cur)
+            self.line_targets = ()
+            if e is None:
+                return
+            if cur is not None and e[0] == "aug":
+                self.emit(ind, "%s %s= %s" % (v, self.pick(["+", "-", "*"]), e[1]))
+                sc.names[v] = Info("int")
+                return
+            if e[0] == "ann":
+                self.emit(ind, "%s: int = %s" % (v, e[1]))
+                if definite or cur is not None:
+                    sc.names[v] = Info("int")
+                return
+            e = e[1]
+            if False:
                 self.emit(ind, "%s %s= %s" % (v, self.pick(["+", "-", "*"]), e))
-            elif self.chance(0.08) and v not in glob:
-                self.emit(ind, "%s: int = %s" % (v, e))
             else:
                 self.emit(ind, "%s = %s" % (v, e))
             if definite or cur is not None:
@@ -222,7 +258,9 @@ class Gen:
                 return
             if not definite and (a not in sc.names or b not in sc.names):
                 return
-            self.emit(ind, "%s, %s = %s, %s" % (a, b, self.expr(sc, 1), self.expr(sc, 1)))
+            self.line_targets = (a, b)
+            self.emit(ind, "%s, %s = %s, %s" % (a, b, self.assigned_value(sc, 1), self.assigned_value(sc, 1)))
+            self.line_targets = ()
             sc.names[a] = Info("int")
             sc.names[b] = Info("int")
         elif r < 0.80:
@@ -239,7 +277,7 @@ class Gen:
             if objs:
                 o, oi = self.pick(objs)
                 a = self.pick(sorted(oi.cls.iattrs | oi.cls.cattrs))
-                self.emit(ind, "%s.%s = %s" % (o, a, self.expr(sc, 1)))
+                self.emit(ind, "%s.%s = %s" % (o, a, self.assigned_value(sc, 1)))
             else:
                 self.print_stmt(sc, ind)
 
@@ -258,6 +296,24 @@ class Gen:
         if not any(l.strip() and not l.strip().startswith("#") for l in self.lines[k:]):
             self.emit(ind, "pass")
 
+    def expr_stmt(self, sc, v, cur):
+        """the right-hand side of an assignment to v: ("plain" | "aug" | "ann", text).  Augmented and annotated
+        assignments are not visited by rope's scope visitors: their value holds no comprehension unless the
+        feature "unvisited" is on"""
+        r = self.rng.random()
+        kind = "plain"
+        if cur is not None and r < 0.25:
+            kind = "aug"
+        elif r < 0.31 and v not in self.globs:
+            kind = "ann"
+        if kind != "plain" and "unvisited" not in self.features:
+            self.nocomp += 1
+            try:
+                return (kind, self.expr(sc))
+            finally:
+                self.nocomp -= 1
+        return (kind, self.assigned_value(sc))
+
     def print_stmt(self, sc, ind):
         r = self.rng.random()
         if r < 0.12:
@@ -267,7 +323,7 @@ class Gen:
                 self.emit(ind, "print(f\"%s={%s} {%s}\")" % (self.pick(INTS), v, self.expr(sc, 1)))
                 return
         if r < 0.22:
-            self.emit(ind, "print(%s, '%s', \"%s %s\")  # %s" % (self.expr(sc), self.pick(INTS + FUNS), self.pick(INTS),
+            self.emit(ind, "print(%s, '%s', \"%s %s\")  # %s" % (self.expr(sc), self.pick(INTS + self.funs), self.pick(INTS),
                                                             self.pick(MODS), self.pick(INTS)))
             return
         self.emit(ind, "print(%s)" % ", ".join(self.expr(sc) for _ in range(self.rng.randrange(1, 3))))
@@ -345,12 +401,33 @@ class Gen:
         return ", ".join(text), ps
 
     def gen_def(self, sc, ind, name, method_of=None, depth=0):
+        was = self.in_method
+        self.in_method = method_of is not None
+        try:
+            return self.gen_def_(sc, ind, name, method_of, depth)
+        finally:
+            self.in_method = was
+
+    def assigned_value(self, sc, depth=0, avoid=()):
+        """the value of an assignment statement: in a method it holds no comprehension (the class visitor would
+        attach the comprehension's scope to the class as well: finding C15-misattached) unless asked for"""
+        if self.in_method and "misattached" not in self.features:
+            self.nocomp += 1
+            try:
+                return self.expr(sc, depth, avoid)
+            finally:
+                self.nocomp -= 1
+        return self.expr(sc, depth, avoid)
+
+    def gen_def_(self, sc, ind, name, method_of=None, depth=0):
         fs = Scope("function", sc)
         if method_of is None:
             sc.names[name] = Info("pending")
         ptext, ps = self.params(fs, sc, method=method_of is not None)
         if self.chance(0.08) and method_of is None and sc.kind == "module":
+            self.nocomp += 1
             self.emit(ind, "def %s(%s): return %s" % (name, ptext, self.expr(fs, 1)))
+            self.nocomp -= 1
             sc.names[name] = Info("fun", params=ps)
             return sc.names[name]
         self.emit(ind, "def %s(%s):" % (name, ptext))
@@ -374,26 +451,29 @@ class Gen:
         # nested definitions and the first assignment of every local come first: a later binding would turn the
         # reads generated before it into reads of an unbound local
         if depth < 2 and self.chance(0.3):
-            self.gen_def(body_sc, ind + 1, self.pick(FUNS), depth=depth + 1)
+            self.gen_def(body_sc, ind + 1, self.pick(self.funs), depth=depth + 1)
         locs = [v for v in INTS if v not in fs.names and v not in glob and self.chance(0.4)]
         for i, v in enumerate(locs):
-            self.emit(ind + 1, "%s = %s" % (v, self.expr(body_sc, 1, avoid=tuple(locs[i:]))))
+            self.emit(ind + 1, "%s = %s" % (v, self.assigned_value(body_sc, 1, avoid=tuple(locs[i:]))))
             body_sc.names[v] = Info("int")
         if method_of is not None:
             for _ in range(self.rng.randrange(0, 3)):
                 a = self.pick(INTS)
                 if name == "__init__":
-                    self.emit(ind + 1, "self.%s = %s" % (a, self.expr(fs, 1)))
+                    if a in method_of.inherited and "shadowattr" not in self.features:
+                        continue        # finding instance-attribute-hides-inherited
+                    self.emit(ind + 1, "self.%s = %s" % (a, self.assigned_value(fs, 1)))
                     method_of.iattrs.add(a)
-                elif a in method_of.iattrs or a in method_of.cattrs:
-                    self.emit(ind + 1, "self.%s = %s" % (a, self.expr(fs, 1)))
+                elif (a in method_of.iattrs or a in method_of.cattrs) and (
+                        a not in method_of.inherited or "shadowattr" in self.features):
+                    self.emit(ind + 1, "self.%s = %s" % (a, self.assigned_value(fs, 1)))
         n = self.rng.randrange(1, 4)
         for _ in range(n):
             r = self.rng.random()
             if r < 0.6:
                 if glob and self.chance(0.5):
                     g = self.pick(glob)
-                    self.emit(ind + 1, "%s = %s" % (g, self.expr(body_sc, 1)))
+                    self.emit(ind + 1, "%s = %s" % (g, self.assigned_value(body_sc, 1)))
                 else:
                     self.simple(body_sc, ind + 1, glob=glob)
                     # a binding made through `global` belongs to the module
@@ -405,11 +485,15 @@ class Gen:
                     body_sc.names.pop(g, None)
             else:
                 self.print_stmt(body_sc, ind + 1)
+        if "unvisited" not in self.features:
+            self.nocomp += 1
         if method_of is not None and (method_of.iattrs or method_of.cattrs) and self.chance(0.7):
             a = self.pick(sorted(method_of.iattrs | method_of.cattrs))
             ret = "self.%s + %s" % (a, self.expr(body_sc, 1))
         else:
             ret = self.expr(body_sc)
+        if "unvisited" not in self.features:
+            self.nocomp -= 1
         if name != "__init__":
             self.emit(ind + 1, "return %s" % ret)
         elif not self.lines[-1].startswith("    " * (ind + 1)) or self.lines[-1].lstrip().startswith(("global", "nonlocal", "#")):
@@ -424,7 +508,8 @@ class Gen:
         base = self.pick(bases) if bases and self.chance(0.4) else None
         bi = sc.lookup(base) if base else None
         info = Info("cls", cattrs=set(bi.cattrs) if bi else set(), iattrs=set(bi.iattrs) if bi else set(),
-                    methods=dict(bi.methods) if bi else {}, init=list(bi.init) if bi else [])
+                    methods=dict(bi.methods) if bi else {}, init=list(bi.init) if bi else [],
+                    inherited=set(bi.cattrs) if bi else set())
         self.emit(ind, "class %s%s:" % (name, "(%s)" % base if base else self.pick(["", "", "(object)"])))
         cs = Scope("class", sc)
         n = 0
@@ -437,7 +522,11 @@ class Gen:
                 cs.names[b] = Info("int")
                 info.cattrs.add(b)
             else:
-                self.emit(ind + 1, "%s = %s" % (a, self.expr(cs, 1)))
+                av = () if "classbody" in self.features else tuple(INTS)
+                self.line_targets = (a,)
+                # no call in the main stream: the callee could be spelled like a method the class defines below
+                self.emit(ind + 1, "%s = %s" % (a, self.expr(cs, 1 if "classbody" in self.features else 2, avoid=av)))
+                self.line_targets = ()
                 cs.names[a] = Info("int")
                 info.cattrs.add(a)
             n += 1
@@ -445,8 +534,12 @@ class Gen:
             init = self.gen_def(cs, ind + 1, "__init__", method_of=info)
             info.init = init.params
             n += 1
+        own = set()
         for _ in range(self.rng.randrange(0, 3)):
-            m = self.pick(FUNS)
+            m = self.pick(self.funs)
+            if m in own and "redef" not in self.features:
+                continue
+            own.add(m)
             info.methods[m] = self.gen_def(cs, ind + 1, m, method_of=info)
             n += 1
         if n == 0:
@@ -466,8 +559,11 @@ class Gen:
                 self.emit(ind, "import %s as %s" % (m, alias))
                 sc.names[alias] = Info("mod", target=m)
             else:
-                if m in sc.names and sc.names[m].typ != "mod":
-                    return
+                cur = sc.names.get(m.split(".")[0])
+                if cur is not None and (cur.typ != "mod" or getattr(cur, "target", None) != m
+                                        or "reimport" not in self.features):
+                    if not (cur.typ == "mod" and getattr(cur, "target", None) == m):
+                        return
                 self.emit(ind, "import %s" % m)
                 sc.names[m.split(".")[0]] = Info("mod", target=m) if "." not in m else Info("pkg")
         else:
@@ -477,19 +573,20 @@ class Gen:
             parts = []
             for n in chosen:
                 i = ex[n]
-                pool = {"int": INTS, "fun": FUNS, "cls": CLSS}.get(i.typ)
+                pool = {"int": INTS, "fun": self.funs, "cls": CLSS}.get(i.typ)
                 if pool is None:
                     continue
+                rebind = "reimport" in self.features
                 if self.chance(0.3):
-                    alias = self.pick(pool)
+                    alias = self.pick([a for a in pool if a != n] or pool)
                     cur = sc.names.get(alias)
-                    if cur is not None and cur.typ != i.typ:
+                    if cur is not None and (cur.typ != i.typ or not rebind):
                         continue
                     parts.append("%s as %s" % (n, alias))
                     sc.names[alias] = i
                 else:
                     cur = sc.names.get(n)
-                    if cur is not None and cur.typ != i.typ:
+                    if cur is not None and (cur.typ != i.typ or not rebind):
                         continue
                     parts.append(n)
                     sc.names[n] = i
@@ -504,7 +601,7 @@ class Gen:
         self.lines = []
         sc = Scope("module")
         if self.chance(0.3):
-            self.emit(0, '"""%s %s"""' % (self.pick(INTS), self.pick(FUNS)))
+            self.emit(0, '"""%s %s"""' % (self.pick(INTS), self.pick(self.funs)))
         n = self.rng.randrange(5, 10) if not is_main else self.rng.randrange(6, 12)
         for k in range(n):
             r = self.rng.random()
@@ -512,7 +609,7 @@ class Gen:
             if avail and (r < 0.18 or (is_main and k == 0)):
                 self.gen_import(sc, 0, avail)
             elif r < 0.40:
-                f = self.pick(FUNS)
+                f = self.pick(self.funs)
                 if f in sc.names:
                     continue
                 self.gen_def(sc, 0, f)
